@@ -70,6 +70,10 @@ func NewReader(r io.ReaderAt, opts ...Option) (*Reader, error) {
 	}
 
 	if cr.Version == 2 {
+		// The CARv2 header is read at a fixed offset, so the pragma must be exactly PragmaSize bytes.
+		if pos, err := or.Seek(0, io.SeekCurrent); err != nil || pos != PragmaSize {
+			return nil, fmt.Errorf("invalid CARv2 pragma")
+		}
 		if err := cr.readV2Header(); err != nil {
 			return nil, err
 		}
